@@ -48,6 +48,15 @@ CHECKS = {
  "C09": ("exploration", "sched", "schedule-exploring PBT: Hypothesis-generated multi-threaded programs run under a harness-owned deterministic scheduler (all single-preemption schedules / all preemption sites, sampled 2-3 preemptions), linearizability oracle against all serial orders of a plain model",
          "Generated 2-3 thread programs over every mutator (shared object, second object on the file, pre-taken nested handles) are executed under a deterministic scheduler that owns every lock and every line-level preemption point; every executed schedule's outcomes and final file must be explained by some serial order of the operations on a plain model, and no schedule may deadlock.",
          "line-level preemption (not inside single C calls); only executed schedules are claimed; for programs above 1600 single-preemption schedules every distinct preemption site is covered by its first occurrences instead of every step", "2.6 / 3 C09"),
+ "C10": ("fault_enumeration", "sched", "fault enumeration under the deterministic scheduler: every operation x every content/value/IO-call fault, followed by a second thread; plus generated lock-mixing programs and retarget programs under all single-preemption schedules; oracle = exact lock ownership and deadlock detection",
+         "Part A enumerates, per JSON class, every operation with every injected fault (content, rejected value, OSError at each file-system call of the load and save) unbuffered and buffered, then lets a second thread use the same object, a sibling object and another file: no lock may stay owned, nothing may deadlock ('exhaustive': true for that product). Parts B/C explore generated lock-mixing programs (incl. object construction and buffered clear/reset) and filename retargeting under all single-preemption schedules.",
+         "only named faults injected; deadlock exact inside the cooperative scheduler; locks not created through threading.RLock/Lock would be a harness error", "2.6-2.8 / 3 C10"),
+ "C13": ("exploration", "sched", "schedule-exploring PBT: Hypothesis-generated programs of buffered mutators inside buffer_backend(capacity) with flush-forcing capacities, deterministic scheduler, linearizability per file + exit/size/lock oracles",
+         "Generated 2-3 thread programs of buffered mutators over 1-3 files (shared or distinct objects) inside a backend-wide context with capacities that force flushes mid-operation; all single-preemption schedules / all preemption sites plus sampled deeper ones; outcomes and each file's final content must match a serial order, the exit must not raise, size 0, no deadlock or leaked lock.",
+         "as C09; reads not issued (C14)", "3 C13"),
+ "C14": ("exploration", "sched", "schedule-exploring PBT with a real-time linearizability oracle over complete histories (reads included), unbuffered and buffered",
+         "Generated reader/writer programs executed under the deterministic scheduler; the full history including reads must be linearizable w.r.t. real-time order against the plain model. Known finding K3 (unsynchronised reads on a shared object tree) is excluded by construction while it reproduces: each reading thread then gets its own object, and shared-memory-buffered programs run unbuffered.",
+         "as C09; K3 exclusion narrows the explored domain as stated", "3 C14"),
 }
 
 def main():
@@ -87,7 +96,7 @@ def main():
             {"name": "roworld", "path": "vf/props/c17.py", "serves_properties": ["C17"], "kind_free_text": "read-only bufworld + audit hooks (vf/audit.py)"},
             {"name": "famworld+attr", "path": "vf/props/c18.py", "serves_properties": ["C18"], "kind_free_text": "family-closure world and attribute/item differential programs"},
             {"name": "zygote", "path": "vf/props/c19.py", "serves_properties": ["C19"], "kind_free_text": "fork-per-case fresh-process oracle"},
-            {"name": "sched", "path": "vf/sched.py", "serves_properties": ["C09"], "kind_free_text": "deterministic cooperative scheduler (locks replaced, sys.settrace yield points), fork isolation, fault injection; oracle helpers in vf/conc.py"},
+            {"name": "sched", "path": "vf/sched.py", "serves_properties": ["C09", "C10", "C13", "C14"], "kind_free_text": "deterministic cooperative scheduler (locks replaced, sys.settrace yield points), fork isolation, fault injection; oracle helpers in vf/conc.py"},
             {"name": "world", "path": "vf/world.py", "serves_properties": ["C01", "C02", "C03", "C04"], "kind_free_text": "interpreter of generated step lists against the library and a plain dict/list model (Hypothesis-driven), with replay and minimisation"},
         ],
         "checks": checks,
